@@ -31,7 +31,7 @@ def tests(wt):
 
 def main():
     pid = sys.argv[1]
-    outdir = sys.argv[2] if len(sys.argv) > 2 else "/tmp/seed/%s_out" % pid
+    outdir = sys.argv[2] if len(sys.argv) > 2 else "/tmp/seed2/%s_out" % pid
     wt = "/var/tmp/vt/imp-%s" % pid
     sh("git -C /repo worktree remove --force %s" % wt)
     rc, out = sh("git -C /repo worktree add --detach %s HEAD" % wt)
@@ -59,7 +59,7 @@ def main():
             print(pid, tag, "CONFIRMED" if ok else "REJECTED", "demo clean rc=%s patched rc=%s tests=%s/%s %s" % (rc0, rc1, nf, npass, failed))
             if not ok:
                 continue
-            dst = os.path.join(ROOT, "seeded", "%s-%s" % (pid, tag))
+            dst = os.path.join(ROOT, "seeded", "%s-%s%s" % (pid, os.environ.get("SEED_ROUND", ""), tag))
             os.makedirs(dst, exist_ok=True)
             shutil.copy(patch, os.path.join(dst, "patch.diff"))
             shutil.copy(demo, os.path.join(dst, "demo.py"))
